@@ -85,6 +85,10 @@ pub enum Class {
     /// (data, end) offsets imply: the interpreter must refuse it whatever the VM was configured
     /// with before. Interpreter only (contains an unreachable call to a never-registered helper).
     FixedBeyondEnd,
+    /// random mix of ALU operations, stack stores and loads (only of bytes the program wrote),
+    /// packet loads (ldabs / ldind / through r1), packet or metadata stores, forward branches and
+    /// helper calls; memory-safe for every packet of at least `min_pkt` bytes, deterministic
+    Mixed,
     /// a long straight-line ALU program (more than a page of machine code)
     LongAlu,
     /// main -> f -> g, and g fails (out-of-bounds load): the interpreter returns an error from two
@@ -121,6 +125,7 @@ impl Class {
             Class::SlotPlain => "SlotPlain",
             Class::ProbeHelperThenPkt => "ProbeHelperThenPkt",
             Class::FixedBeyondEnd => "FixedBeyondEnd",
+            Class::Mixed => "Mixed",
             Class::LongAlu => "LongAlu",
             Class::FailInCallee => "FailInCallee",
             Class::ProbeCallThenPkt => "ProbeCallThenPkt",
@@ -151,6 +156,7 @@ impl Class {
             Class::StackLeakRead,
             Class::ProbeHelperThenPkt,
             Class::FixedBeyondEnd,
+            Class::Mixed,
             Class::LongAlu,
             Class::FailInCallee,
             Class::ProbeCallThenPkt,
@@ -338,6 +344,149 @@ pub fn gen_fixed_beyond_end(tag: u8, doff: usize, eoff: usize, beyond: usize) ->
     let mut p = mk(b.v, tag, Class::FixedBeyondEnd);
     p.offsets = Some((doff, eoff));
     p.p0 = at as i64;
+    p
+}
+
+/// See `Class::Mixed`. r9 keeps the context pointer (r1 at entry), r0/r6/r7/r8 are data registers
+/// that never hold an address, r2-r5 are scratch.
+pub fn gen_mixed(rng: &mut Rng, tag: u8, kind: Kind, p0len: usize, mbuff_len: usize) -> Prog {
+    let mut b = B::new(tag);
+    b.i(MOV64_REG, 9, 1, 0, 0);
+    let data = [0u8, 6, 7, 8];
+    for r in data {
+        b.i(MOV64_IMM, r, 0, 0, rng.next_u64() as i32);
+    }
+    let min_pkt = if kind.has_packet() { *rng.pick(&[16usize, 24, 40]).min(&p0len) } else { 0 };
+    let ctx_len = match kind {
+        Kind::Raw => min_pkt,
+        Kind::Mbuff => mbuff_len,
+        _ => 0,
+    };
+    let mut written = [false; 512];
+    let n = rng.range(6, 40);
+    let mut units: Vec<Vec<[u8; 8]>> = Vec::new();
+    for _ in 0..n {
+        let d = *rng.pick(&data);
+        let s2 = *rng.pick(&data);
+        let w = *rng.pick(&[1usize, 2, 4, 8]);
+        let wi = match w {
+            1 => 0x10u8,
+            2 => 0x08,
+            4 => 0x00,
+            _ => 0x18,
+        };
+        let imm = match rng.below(3) {
+            0 => rng.below(256) as i32,
+            1 => -(rng.below(70000) as i32),
+            _ => rng.next_u64() as i32,
+        };
+        let unit: Vec<[u8; 8]> = match rng.below(20) {
+            // ---- ALU, 64- and 32-bit --------------------------------------------------------
+            0..=5 => {
+                let op = *rng.pick(&[0x00u8, 0x10, 0x20, 0x30, 0x40, 0x50, 0x60, 0x70, 0x90, 0xa0, 0xb0, 0xc0]);
+                let cls = if rng.chance(1, 2) { 0x07u8 } else { 0x04 };
+                if rng.chance(1, 2) {
+                    let imm = if matches!(op, 0x60 | 0x70 | 0xc0) { rng.below(if cls == 0x07 { 64 } else { 32 }) as i32 } else { imm };
+                    vec![ins(op | cls, d, 0, 0, imm)]
+                } else {
+                    vec![ins(op | cls | 0x08, d, s2, 0, 0)]
+                }
+            }
+            6 => vec![ins(0x84, d, 0, 0, 0)], // neg32
+            7 => vec![ins(if rng.chance(1, 2) { 0xd4 } else { 0xdc }, d, 0, 0, *rng.pick(&[16i32, 32, 64]))], // le / be
+            8 => {
+                let lo = rng.next_u64() as i32;
+                let hi = rng.next_u64() as i32;
+                vec![ins(LD_DW_IMM, d, 0, 0, lo), ins(0, 0, 0, 0, hi)]
+            }
+            // ---- stack ------------------------------------------------------------------------
+            9..=11 => {
+                let off = rng.range(0, (512 - w) as u64) as usize; // byte index from the bottom
+                for k in 0..w {
+                    written[off + k] = true;
+                }
+                let o = off as i16 - 512;
+                if rng.chance(1, 2) {
+                    vec![ins(0x62 | wi, 10, 0, o, imm)] // st imm
+                } else {
+                    vec![ins(0x63 | wi, 10, s2, o, 0)] // stx reg
+                }
+            }
+            12 | 13 => {
+                // load from the stack only what this program has written
+                let cands: Vec<usize> = (0..=512 - w).filter(|o| (0..w).all(|k| written[o + k])).collect();
+                if cands.is_empty() {
+                    vec![ins(0xbf, d, s2, 0, 0)]
+                } else {
+                    let off = *rng.pick(&cands);
+                    vec![ins(0x61 | wi, d, 10, off as i16 - 512, 0)]
+                }
+            }
+            // ---- packet -----------------------------------------------------------------------
+            14 if min_pkt >= 16 => {
+                let idx = rng.below((min_pkt - 8) as u64 + 1) as i32;
+                vec![ins(0x20 | wi, 0, 0, 0, idx)] // ldabs
+            }
+            15 if min_pkt >= 16 => {
+                let total = rng.below((min_pkt - 8) as u64 + 1) as i32;
+                let r = rng.below(total as u64 + 1) as i32;
+                vec![ins(MOV64_IMM, 3, 0, 0, r), ins(0x40 | wi, 0, 3, 0, total - r)] // ldind
+            }
+            // ---- through the context pointer ---------------------------------------------------
+            16 if ctx_len >= w => {
+                let off = rng.below((ctx_len - w) as u64 + 1) as i16;
+                vec![ins(0x61 | wi, d, 9, off, 0)]
+            }
+            17 if ctx_len >= w => {
+                let off = rng.below((ctx_len - w) as u64 + 1) as i16;
+                if rng.chance(1, 2) {
+                    vec![ins(0x62 | wi, 9, 0, off, imm)]
+                } else {
+                    vec![ins(0x63 | wi, 9, s2, off, 0)]
+                }
+            }
+            // ---- helper call ---------------------------------------------------------------------
+            18 => {
+                let key = *rng.pick(&MIXER_KEYS);
+                let mut v = Vec::new();
+                for r in 1..=5u8 {
+                    if rng.chance(1, 2) {
+                        v.push(ins(MOV64_IMM, r, 0, 0, rng.below(1 << 20) as i32));
+                    } else {
+                        v.push(ins(MOV64_REG, r, *rng.pick(&[6u8, 7, 8]), 0, 0));
+                    }
+                }
+                v.push(ins(CALL, 0, 0, 0, key as i32));
+                v
+            }
+            _ => vec![ins(0xbf, d, s2, 0, 0)],
+        };
+        units.push(unit);
+    }
+    let nunits = units.len();
+    for (idx, u) in units.iter().enumerate() {
+        if idx + 1 < nunits && rng.chance(1, 6) {
+            // forward skip over this unit; stack bytes it writes may then be unwritten: only skip
+            // units that do not store to the stack
+            let stores_stack = u.iter().any(|i| (i[0] & 0x07 == 0x02 || i[0] & 0x07 == 0x03) && (i[1] & 0x0f) == 10);
+            if !stores_stack {
+                let a = *rng.pick(&data);
+                let c = *rng.pick(&data);
+                let opc = *rng.pick(&[0x1du8, 0x2d, 0x3d, 0x5d, 0x6d, 0x7d, 0xad, 0xbd, 0xcd, 0xdd, 0x1e, 0x5e]);
+                b.v.extend_from_slice(&ins(opc, a, c, u.len() as i16, 0));
+            }
+        }
+        for i in u {
+            b.v.extend_from_slice(i);
+        }
+    }
+    b.i(0xaf, 0, 6, 0, 0);
+    b.i(0x0f, 0, 7, 0, 0);
+    b.i(0xaf, 0, 8, 0, 0);
+    b.trailer(tag);
+    let mut p = mk(b.v, tag, Class::Mixed);
+    p.min_pkt = min_pkt;
+    p.min_mbuff = if kind == Kind::Mbuff { mbuff_len } else { 0 };
     p
 }
 
